@@ -1,4 +1,5 @@
 import TerwayModel.Proofs.Daemon
+import TerwayModel.Proofs.StoredRec
 /-
 C05 — a daemon restart keeps acknowledged allocations and never double-allocates.
 Model: `restart` / `crash` / `Store` in `TerwayModel/Model/Daemon.lean`; invariant: `TerwayModel/Proofs/Daemon.lean`.
@@ -190,5 +191,29 @@ example : (run (boot false false cloud0)
       [.req (.add [e101]) "p1" "c1" (.found false),
        .req (.addFail [e101p] true) "p1" "c2" (.found false),
        .req (.add [e101]) "p2" "c3" (.found false)]).db.map (·.1) = ["p1"] := by decide
+
+/-! ### the start-up filter between the stored records and the pool (daemon.go `filterENINotFound`) -/
+
+/-- what the restarted daemon hands to the pool is a sub-list of the stored record: nothing is invented -/
+theorem c05_startup_filter_sublist (att : Stored.Attached) (rs out : List Stored.Item)
+    (h : Stored.filter att rs = some out) : out.Sublist rs :=
+  Stored.loop_sublist _ att _ _ _ rs out h
+
+/-- every stored item whose interface is still attached reaches the pool: named by `eni_id`, or — records written
+    without it — by the MAC in front of its `id`; items of other types always do -/
+theorem c05_startup_filter_keeps_attached (att : Stored.Attached) (rs out : List Stored.Item)
+    (h : Stored.filter att rs = some out) (it : Stored.Item) (hit : it ∈ rs)
+    (hatt : it.eniIp = false ∨ (it.eniID ≠ "" ∧ ∃ e ∈ att, e.1 = it.eniID) ∨
+            (it.eniID = "" ∧ ∃ e ∈ att, e.2 = Stored.idMac it.id)) : it ∈ out := by
+  refine Stored.loop_keeps _ att _ _ _ rs out h it hit ?_
+  unfold Stored.stale
+  rcases hatt with h0 | ⟨hne, e, he, hid⟩ | ⟨hemp, e, he, hmac⟩
+  · simp [h0]
+  · have : (att.any fun x => x.1 == it.eniID) = true := List.any_eq_true.mpr ⟨e, he, by simp [hid]⟩
+    simp [hne, this]
+  · have : (att.any fun x => x.2 == Stored.idMac it.id) = true := List.any_eq_true.mpr ⟨e, he, by simp [hmac]⟩
+    simp [hemp, this]
+
+example : Stored.filter [("eni-1", "m1")] [⟨true, "", "m1.10.0.0.1"⟩] = some [⟨true, "", "m1.10.0.0.1"⟩] := by decide
 
 end Terway.Props.C05
